@@ -39,6 +39,23 @@ def id_allocation_kernel():
                         step = sub.value.value
                         # `id = self.count` must precede the increment inside the same locked block
                         under_lock = any(isinstance(s, ast.Assign) and ast.unparse(s.value) == "self.count" for s in ast.walk(node))
+    # every other store to the counter anywhere in ChannelFactory belongs to the kernel too
+    other_stores = []
+    cls_tree = ast.parse(textwrap.dedent(inspect.getsource(gb.ChannelFactory)))
+    for fn in [n for n in ast.walk(cls_tree) if isinstance(n, ast.FunctionDef)]:
+        for sub in ast.walk(fn):
+            tgt = None
+            if isinstance(sub, ast.Assign) and any(ast.unparse(t) == "self.count" for t in sub.targets):
+                tgt = ("assign", sub.value)
+            elif isinstance(sub, ast.AugAssign) and ast.unparse(sub.target) == "self.count":
+                tgt = ("aug", sub)
+            if tgt is None:
+                continue
+            if fn.name == "__init__" and tgt[0] == "assign" and ast.unparse(tgt[1]) == "startcount":
+                continue
+            if fn.name == "new" and tgt[0] == "aug" and isinstance(sub.op, ast.Add) and isinstance(sub.value, ast.Constant) and sub.value.value == step:
+                continue
+            other_stores.append(f"{fn.name}: {ast.unparse(sub)}")
     gsrc = inspect.getsource(gateway.Gateway.__init__)
     ssrc = inspect.getsource(gb.serve)
     def startcount(text):
@@ -48,9 +65,12 @@ def id_allocation_kernel():
         return None
     a0, b0 = startcount(gsrc), startcount(ssrc)
     default = inspect.signature(gb.ChannelFactory.__init__).parameters["startcount"].default
-    facts = {"increment": step, "read_and_increment_under_writelock": under_lock, "initiator_start": a0, "worker_start": b0, "factory_default": default}
+    facts = {"increment": step, "read_and_increment_under_writelock": under_lock, "initiator_start": a0, "worker_start": b0, "factory_default": default,
+             "other_stores_to_count": other_stores}
     queries = []
-    ok = step is not None and a0 is not None and b0 is not None and under_lock
+    # a store the kernel does not know (e.g. `self.count = id + 2` for an id received from the peer) can set the counter to any value:
+    # the parity invariant is not inductive then (the peer's ids have the other parity)
+    ok = step is not None and a0 is not None and b0 is not None and under_lock and not other_stores
     if ok:
         t0 = time.time()
         ca, cb, ia, ib = z3.Ints("ca cb ia ib")
